@@ -584,7 +584,97 @@ fn ref_delay(x: &[S2], d: usize, fb: f32, mix: f32, fxk: usize) -> Vec<S2> {
 		})
 		.collect()
 }
+/// the same delay hosted on a SEND track whose only source stops feeding it (its track is paused / removed): the echoes
+/// go on exactly as the reference delay line prescribes
+fn run_hosted_send(sr: u32, ctx: &mut Ctx) {
+	use crate::rig;
+	use kira::sound::{Sound, SoundData};
+	use kira::track::{MainTrackBuilder, SendTrackBuilder, TrackBuilder};
+	struct Imp(bool);
+	impl Sound for Imp {
+		fn process(&mut self, out: &mut [Frame], _dt: f64, _info: &Info) {
+			out.fill(Frame::ZERO);
+			if !self.0 {
+				self.0 = true;
+				out[0] = Frame::new(0.5, -0.25);
+			}
+		}
+		fn finished(&self) -> bool {
+			false
+		}
+	}
+	struct ImpData;
+	impl SoundData for ImpData {
+		type Error = ();
+		type Handle = ();
+		fn into_sound(self) -> Result<(Box<dyn Sound>, ()), ()> {
+			Ok((Box::new(Imp(false)), ()))
+		}
+	}
+	const N: usize = 128;
+	let d = 100usize;
+	for fb_db in [-6.0f32, -1.0] {
+		for how in 0..3 {
+			ctx.evals += 1;
+			let detail = format!(
+				"send track with DelayBuilder delay_time={} frames feedback={} dB mix=1 at {} Hz; a sub-track routed to it (0 dB) plays one impulse frame (0.5, -0.25); after the first callback of {} frames {}; 8 callbacks",
+				d,
+				fb_db,
+				sr,
+				N,
+				["the sub-track is paused (instant)", "the sub-track's handle is dropped (the track is removed)", "nothing happens (control)"][how]
+			);
+			let r = catch(|| -> Result<Vec<S2>, String> {
+				let mut m = rig::manager(sr, 64, rig::caps(4), MainTrackBuilder::new());
+				let send = m
+					.add_send_track(SendTrackBuilder::new().with_effect(DelayBuilder::new().delay_time(Duration::from_secs_f64(d as f64 / sr as f64)).feedback(Decibels(fb_db)).mix(Mix::WET)))
+					.map_err(|_| "send track")?;
+				let mut t = Some(m.add_sub_track(TrackBuilder::new().with_send(send.id(), Decibels::IDENTITY)).map_err(|_| "sub-track")?);
+				t.as_mut().unwrap().play(ImpData).map_err(|_| "play")?;
+				let mut out: Vec<(f32, f32)> = vec![];
+				for cb in 0..8 {
+					if cb == 1 {
+						match how {
+							0 => t.as_mut().unwrap().pause(NOW),
+							1 => t = None,
+							_ => {}
+						}
+					}
+					let rep = rig::render_stereo(&mut m, N, &mut out);
+					if let Some(p) = rep.panic {
+						return Err(p);
+					}
+				}
+				drop((t, send));
+				Ok(out.iter().map(|f| [f.0, f.1]).collect())
+			})
+			.and_then(|r| r);
+			let y = match r {
+				Ok(y) => y,
+				Err(p) => {
+					ctx.fail(format!("panic: {} :: delay on a send track", p), detail);
+					continue;
+				}
+			};
+			let mut x = vec![[0.0f32; 2]; y.len()];
+			x[0] = [0.5, -0.25];
+			note(ctx, &x, &y);
+			let wet = ref_delay(&x, d, amp(fb_db), 1.0, 0);
+			let want: Vec<S2> = (0..x.len()).map(|i| [x[i][0] + wet[i][0], x[i][1] + wet[i][1]]).collect();
+			if let Some(df) = differs(&y, &want, &x) {
+				ctx.fail(
+					"delay: output differs from the reference delay line with feedback path :: hosted on a send track whose source stops feeding it".to_string(),
+					format!("{}; {}", detail, df),
+				);
+			}
+		}
+	}
+}
+
 fn run_delay(tier: Tier, sr: u32, ctx: &mut Ctx) {
+	if sr == 48000 && !via() {
+		run_hosted_send(sr, ctx);
+	}
 	let times_us: &[u64] = tier.pick(&[10, 1000, 2500, 9000], &[10, 1000, 2500, 9000, 22_675, 100_000, 250_250]);
 	for &us in times_us {
 		for fb_db in [-60.0f32, -12.0, -6.0, 0.0] {
